@@ -1,4 +1,6 @@
-// Kani contracts for /repo/src/path/owned.rs (child module via cfg(kani) hook).
+// /repo/src/path/owned.rs: OwnedSegment/OwnedTargetPath::can_start_with are verified by the Verus unit
+// v_read_only. A bounded Kani harness on the generic ValuePath::can_start_with (2-segment paths) ran CBMC out
+// of memory and was dropped; that generic fn stays an assumed callee contract (DESIGN section 4, C15).
 #![allow(warnings)]
 use super::*;
 
